@@ -56,6 +56,9 @@ def gen_case(seed, i):
             # how each input path is written on the command line (the statistics and the path order must follow the
             # roots whatever their spelling): absolute, relative to the working directory, ./x, x/, x/../x
             "spell": [rng.choice(["abs", "abs", "rel", "dot", "slash", "dotdot"]) for _ in roots],
+            # the command is started somewhere else and told with --base-dir where relative input paths live;
+            # a relative -o FILE stays a file of the directory the command was started in
+            "basedir": rng.choice([None, None, None, "abs", "rel"]),
             "min0": rng.random() < 0.25, "outs": [rng.random() < 0.5 for _ in range(4)],
             "fault": rng.choice(["none", "none", "short", "unreadable"]), "seam_seed": rng.randint(1, 10**9)}
 
@@ -220,8 +223,11 @@ def run_case(case):
         for k, fmt in enumerate(["default", "json", "csv", "fdupes"]):
             args = base + ["-f", fmt]
             outp = os.path.join(rd.base, "out.%s" % fmt)
+            bd = case.get("basedir")
+            if bd:
+                args = ["--base-dir", rd.world if bd == "abs" else os.path.relpath(rd.world, rd.base)] + args
             if case["outs"][k]:
-                args += ["-o", outp]
+                args += ["-o", os.path.basename(outp) if bd else outp]
                 if (case.get("i", 0) + k) % 2:
                     # the usual workflow: the output file exists already and holds an older, LONGER report
                     # (written by an earlier run over a bigger tree) - the new report must replace it
@@ -232,7 +238,7 @@ def run_case(case):
                 rb = s2b(r_)
                 sroots.append({"abs": os.path.join(rd.wb(), rb), "rel": b"./" + rb if rb.startswith(b"-") else rb, "dot": b"./" + rb, "slash": b"./" + rb + b"/",
                                "dotdot": b"./" + rb + b"/../" + rb}[how])
-            res = ops.group(rd, sroots, args, env=env, seed=case["seam_seed"], plan=plan, now_ns=T0_NS, cwd=rd.world)
+            res = ops.group(rd, sroots, args, env=env, seed=case["seam_seed"], plan=plan, now_ns=T0_NS, cwd=rd.base if bd else rd.world)
             traces.append(res.trace)
             if res.timed_out:
                 V("terminates", "%s run hung" % fmt)
